@@ -388,6 +388,82 @@ def create_events(v, sid, desc, prof, path, kind, node):
     return out
 
 
+def below_events(v, sid, desc, prof, path, kind, node):
+    """a profile that says something BELOW a complex component (cardinality / datatype of one of its subcomponents): the
+    message is PARSED with the profile, at both levels, with that component filled in; the component's subcomponents carry
+    the profile's datatypes, and the component validated on its own reports the profile's cardinalities"""
+    import_hl7apy()
+    from hl7apy.parser import parse_message
+    nodes = path_nodes(prof[sid], path)
+    if len(nodes) < 4 or [n[3] for n in nodes[-4:]] != ["SEG", "FIE", "CMP", "CMP"] or "MSH" in path or kind == "tighten":
+        return []
+    segn, fien, cmpn, subn = nodes[-4], nodes[-3], nodes[-2], nodes[-1]
+    if fien[2][1] == 0 or cmpn[2][1] == 0:
+        return []
+    st = T.structure(v, sid)
+    structural = [n for n in nodes if n[3] in ("GRP", "SEG")]
+    sn = st_nodes(st, [n[0] for n in structural])
+    if len(sn) != len(structural):
+        return []
+    segnames = [k["name"] for k in groups.all_nodes(st) if k["kind"] == "SEG"]
+    if segnames.count(segn[0]) != 1:
+        return []           # (text is grouped in one way only when the segment is named at one place)
+    subs = children_of(cmpn[1])
+    fi = int(fien[0].rsplit("_", 1)[1])
+    ci = int(cmpn[0].rsplit("_", 1)[1])
+    vals = []
+    VALID = {"DT": "20200101", "DTM": "20200101", "TM": "1201", "TS": "20200101"}
+    for sub in subs:
+        withdrawn = sub[2][1] == 0
+        one = VALID.get(sub[1][2] if isinstance(sub[1], list) and len(sub[1]) > 2 else "", "1")
+        if sub is subn:
+            vals.append("" if kind == "require" else one)
+        else:
+            vals.append("" if withdrawn else one)
+    if not any(vals):
+        return []
+    line = segn[0] + "|" * fi + "^" * (ci - 1) + "&".join(vals).rstrip("&")
+    body = [l for l in instance_lines(st["kids"], set(id(k) for k in sn), {}, None) if not l.startswith("MSH")]
+    body = [line if l.startswith(segn[0] + "|") else l for l in body]
+    if line not in body:
+        return []
+    head = groups.msh(v, sid)
+    out = []
+    for lvl in (1, 2):
+        if lvl == 1 and kind == "forbid":
+            continue        # (STRICT rightly refuses the text)
+        e = {"k": "below", "desc": desc, "v": v, "sid": sid, "lvl": lvl, "route": "parsed", "how": "component validated alone",
+             "subs": [], "errors": [], "outcome": "ok"}
+        try:
+            try:
+                m = parse_message("\r".join([head] + body), message_profile=prof, validation_level=lvl)
+            except Exception as ex:
+                if type(ex).__name__ != "InvalidName" or "_" not in sid:
+                    raise
+                m = parse_message("\r".join([head.replace("^" + sid + "|", "|")] + body), message_profile=prof, validation_level=lvl)
+            el = m
+            for n in structural:
+                el = last_of(el, n[0])
+            comp = getattr(getattr(el, fien[0].lower())[0], cmpn[0].lower())[0]
+            got = dict((c.name, c.datatype) for c in comp.children)
+            cnt = {}
+            for c in comp.children:
+                cnt[c.name] = cnt.get(c.name, 0) + 1
+            for sub in subs:
+                leaf = isinstance(sub[1], list) and len(sub[1]) > 2 and sub[1][0] == "leaf"
+                e["subs"].append([sub[0], sub[2][0], sub[2][1], cnt.get(sub[0], 0), sub[1][2] if leaf and sub[0] in got else "",
+                                  got.get(sub[0]) or ""])
+            r = comp.validate(return_errors=True)
+            for x in r.errors:
+                for t in c04.tokenise(x):
+                    if t[0] in ("missing", "limit") and t[1] == cmpn[0]:
+                        e["errors"].append([t[0], t[2]])
+        except Exception as ex:
+            e["outcome"] = exc_name(ex)
+        out.append(e)
+    return out
+
+
 def positional_events(v, sid, rnd):
     """profiles that give a complex component another complex datatype; the subcomponents are then reached by the
     positional names <field>_<j>_<k> and by name"""
@@ -585,6 +661,10 @@ def _chunk(args):
                 vals.extend(validation_events(v, sid, desc, prof, rnd))
                 continue
             creates.extend(create_events(v, sid, desc, prof, path, kind, node))
+            try:
+                creates.extend(below_events(v, sid, desc, prof, path, kind, node))
+            except Exception as ex:
+                creates.append({"harness_note": "below events failed for %s %s %s: %r" % (v, sid, desc, ex)})
             if node[3] in ("SEG", "GRP", "FIE"):
                 vals.extend(validation_events(v, sid, desc, prof, rnd))
     return creates, sames, vals
